@@ -36,7 +36,9 @@ Proof.
   - destruct J as [_ [kn [[l0 [i [kvs [v [El [R Hi]]]]]] Hs]]].
     exists l0, kn, v. split; auto. split; auto.
     rewrite El. eapply reach_snoc; eauto. constructor; auto.
-  - destruct J as [_ [s [[l0 [p [r [El [R [Hc Hl]]]]]] Hs]]].
-    destruct s as [i v| | |]; try discriminate.
-    exists i, v. split; auto. rewrite El. eapply reach_snoc; eauto.
+  - destruct J as [_ [s [[[l0 [p [r [El [R [Hc Hl]]]]]]|[El [Es [Hl _]]]] Hs]]].
+    + destruct s as [i v| | |]; try discriminate.
+      exists i, v. split; auto. rewrite El. eapply reach_snoc; eauto.
+    + subst s. destruct d as [i v| | |]; try discriminate.
+      exists i, v. split; auto. rewrite El. constructor.
 Qed.
